@@ -20,7 +20,7 @@ CACHE = ["cold", "warm"]
 BMAX = [10000, 3, 4, 6]
 REF = (1, 0, "cold", 10000)
 DIMS = ("ml", "mepc", "cache", "bmax")
-STEP_LIMIT = 3000       # runiter_once rounds; the programs execute < 1000 instructions
+STEP_LIMIT = 6000       # runiter_once rounds; the programs execute < 1000 instructions
 
 ARCHS = ["x86_32", "x86_64", "arml", "aarch64l", "mips32l", "mips32b", "ppc32b", "msp430"]
 FUNCS = ["arr_loop", "loop_cond", "nested", "switch4"]
@@ -57,7 +57,7 @@ def scenario(prog, cfg, backend):
     scn["options"] = {"jit_maxline": ml, "max_exec_per_call": mepc}
     scn["block_max"] = bmax
     if cache == "warm":
-        scn["script"] = scn["script"] + [["reset"], ["run", prog["entry"]]]
+        scn["script"] = scn["script"] + [["reset"], ["clear_exc"], ["run", prog["entry"]]]
     return scn
 
 
@@ -209,7 +209,7 @@ class C21(Check):
                    "the code page untouched (rewriting code legitimately invalidates translations)",
                    "programs whose reference run raises a non-jitter Python exception (unsupported instruction) "
                    "are dropped",
-                   "a run is cut after 3000 runiter_once rounds ('step-limit' termination, a deterministic "
+                   "a run is cut after 6000 runiter_once rounds ('step-limit' termination, a deterministic "
                    "observation); configurations on which the python backend hit that limit are not run on gcc"]
     level_text = ("metamorphic testing: each configuration of block length, per-call limit, cache warmth and cache "
                   "size against the single-instruction-block reference of the same backend")
